@@ -794,8 +794,8 @@ func parseScheduledStopTimes(csv *csv.File, stops []Stop, trips []ScheduledTrip)
 			ArrivalTime:           arrival,
 			StopSequence:          stopSequence,
 			DepartureTime:         departure,
-			PickupType:            parsePickupDropOffPolicy(pickupTypeColumn.ReadOr("")),
-			DropOffType:           parsePickupDropOffPolicy(dropOffTypeColumn.ReadOr("")),
+			PickupType:            parsePickupDropOffPolicy(pickupTypeColumn.ReadOr("0")),
+			DropOffType:           parsePickupDropOffPolicy(dropOffTypeColumn.ReadOr("0")),
 			ContinuousPickup:      parsePickupDropOffPolicy(continuousPickupColumn.ReadOr("")),
 			ContinuousDropOff:     parsePickupDropOffPolicy(continuousDropOffColumn.ReadOr("")),
 			ShapeDistanceTraveled: parseFloat64(shapeDistanceTraveledColumn.Read()),
